@@ -6,10 +6,10 @@ end=$((SECONDS+${1:-6}*3600))
 ALL="C01 C02 C03 C04 C05 C06 C07 C08 C09 C10 C11 C12 C13 C14 C15 C16 C20"
 while [ $SECONDS -lt $end ]; do
   did=0
-  for id in C01 C02 C03 C04 C05 C06 C07 C08 C09 C10 C11 C12 C13 C14 C15 C16 C17 C18 C19 C20; do
+  for id in ${ORDER:-C01 C02 C03 C04 C05 C06 C07 C08 C09 C10 C11 C12 C13 C14 C15 C16 C17 C18 C19 C20}; do
     for n in 1 2 3; do
       src=/tmp/wt3/$id/seeded/$n
-      if [ -f "$src/meta.json" ] && [ -f "$src/patch.diff" ] && [ -f /tmp/wt3/$id/DONE ] && [ ! -f /verif/seeded/r3-$id-$n/result.txt ]; then
+      if [ -f "$src/meta.json" ] && [ -f "$src/patch.diff" ] && [ -f /tmp/wt3/$id/DONE ] && [ ! -f /verif/seeded/r3-$id-$n/result.txt ] && mkdir /tmp/mut/claim-$id-$n 2>/dev/null; then
         echo "#### r3-$id-$n $(date +%T)"
         /verif/tools/seed_eval.sh $id $n quick $id
         if ! grep -q "^VIOLATION" /verif/seeded/r3-$id-$n/result.txt; then
@@ -23,7 +23,7 @@ while [ $SECONDS -lt $end ]; do
       fi
     done
     src=/tmp/wt3/$id/benign/1
-    if [ -f "$src/meta.json" ] && [ -f "$src/patch.diff" ] && [ -f /tmp/wt3/$id/DONE ] && [ ! -f /verif/benign/r3-$id-1/result.txt ]; then
+    if [ -f "$src/meta.json" ] && [ -f "$src/patch.diff" ] && [ -f /tmp/wt3/$id/DONE ] && [ ! -f /verif/benign/r3-$id-1/result.txt ] && mkdir /tmp/mut/claim-b-$id 2>/dev/null; then
       echo "#### benign r3-$id-1 $(date +%T)"
       BENIGN_BASE=/tmp/wt3 BENIGN_PREFIX=r3- /verif/tools/benign_eval.sh $id 1 quick $id
       did=1
